@@ -37,6 +37,12 @@ class Stats:
 
 
 STATS = Stats()
+DEADLINE = [None]     # soft wall-clock deadline of the worker (checked at every decision)
+
+
+def check_deadline():
+    if DEADLINE[0] is not None and time.time() > DEADLINE[0]:
+        raise PathLimit("time budget of the obligation exhausted")
 
 
 def timed_check(solver, *extra):
@@ -123,6 +129,7 @@ class Ctx:
 
     # -- branching
     def branch(self, cond):
+        check_deadline()
         c = z3.simplify(cond)
         if z3.is_true(c):
             return True
